@@ -176,6 +176,126 @@ end
 /-- well-formed selector specification: the builder can produce it and ParseSelector accepts it -/
 def wf (s : Sel) : Bool := buildable s && wfIn false s
 
+/-! ### which nodes go-ipld-prime's ParseSelector reads as a given selector specification
+
+`enc s` is only the builder's canonical node.  ParseSelector looks fields up by name
+(`LookupByString`), so it accepts the entries of every clause body in any order and ignores
+entries it does not know; a limit `{"none": v}` is accepted for any `v`; the bodies of matcher and
+recursive-edge clauses may hold anything.  What it insists on: every selector (and limit, and
+condition) node is a map with exactly ONE entry (keyed union); clause bodies are maps (the union
+body a list); `f>` is a map; required fields are present with the right kind; a `subset` / `!`
+entry, if present, has the right shape.  `parsesB s n` = "ParseSelector reads node `n` as the
+specification `s`" (well-formedness conditions on `s` itself — edges under a recursion, range
+bounds … — are `wfIn`, as for `enc`).  Validated against the real parser by the `alt` ops of the
+correspondence stream. -/
+
+/-- the entry of a single-entry map (a keyed union) -/
+def clause : Node → Option (String × Node)
+  | .map [(k, v)] => some (k, v)
+  | _ => none
+
+/-- `n = {key: {kvs…}}` -/
+def bodyOf (key : String) (n : Node) : Option (List (String × Node)) :=
+  match clause n with
+  | some (k, .map kvs) => if k = key then some kvs else none
+  | _ => none
+
+/-- `parseLimit` -/
+def parsesLimitB : Limit → Node → Bool
+  | .none, n =>
+    match clause n with
+    | some (k, _) => k == "none"
+    | none => false
+  | .depth d, n =>
+    match clause n with
+    | some (k, .int i) => k == "depth" && i == d
+    | _ => false
+
+/-- the optional `subset` entry of a matcher body -/
+def parsesSubsetB (sub : Option (Int × Int)) (kvs : List (String × Node)) : Bool :=
+  match lookupNode "subset" kvs with
+  | none => sub.isNone
+  | some (.map skvs) =>
+    match lookupNode "[" skvs, lookupNode "]" skvs with
+    | some (.int a), some (.int b) => sub == some (a, b)
+    | _, _ => false
+  | some _ => false
+
+/-- the optional `!` (stopAt) entry of an ExploreRecursive body: `{"/": <link>}` -/
+def parsesStopB (st : Option Nat) (kvs : List (String × Node)) : Bool :=
+  match lookupNode "!" kvs with
+  | none => st.isNone
+  | some n =>
+    match clause n with
+    | some (k, .link c) => k == "/" && st == some c
+    | _ => false
+
+mutual
+def parsesB : Sel → Node → Bool
+  | .matcher sub, n =>
+    match bodyOf "." n with
+    | some kvs => parsesSubsetB sub kvs
+    | none => false
+  | .all s, n =>
+    match bodyOf "a" n with
+    | some kvs =>
+      (match lookupNode ">" kvs with
+       | some n' => parsesB s n'
+       | none => false)
+    | none => false
+  | .fields fs, n =>
+    match bodyOf "f" n with
+    | some kvs =>
+      (match lookupNode "f>" kvs with
+       | some (.map fkvs) => parsesFieldsB fs fkvs
+       | _ => false)
+    | none => false
+  | .index i s, n =>
+    match bodyOf "i" n with
+    | some kvs =>
+      (match lookupNode "i" kvs, lookupNode ">" kvs with
+       | some (.int j), some n' => j == i && parsesB s n'
+       | _, _ => false)
+    | none => false
+  | .range a b s, n =>
+    match bodyOf "r" n with
+    | some kvs =>
+      (match lookupNode "^" kvs, lookupNode "$" kvs, lookupNode ">" kvs with
+       | some (.int a'), some (.int b'), some n' => a' == a && b' == b && parsesB s n'
+       | _, _, _ => false)
+    | none => false
+  | .recursive l seq st, n =>
+    match bodyOf "R" n with
+    | some kvs =>
+      (match lookupNode "l" kvs, lookupNode ":>" kvs with
+       | some ln, some sn => parsesLimitB l ln && parsesStopB st kvs && parsesB seq sn
+       | _, _ => false)
+    | none => false
+  | .edge, n => (bodyOf "@" n).isSome
+  | .union ms, n =>
+    match clause n with
+    | some (k, .list xs) => k == "|" && parsesListB ms xs
+    | _ => false
+  | .interpretAs adl s, n =>
+    match bodyOf "~" n with
+    | some kvs =>
+      (match lookupNode "as" kvs, lookupNode ">" kvs with
+       | some (.str a), some n' => a == adl && parsesB s n'
+       | _, _ => false)
+    | none => false
+def parsesFieldsB : List (String × Sel) → List (String × Node) → Bool
+  | [], [] => true
+  | (k, s) :: fs, (k', n) :: ns => k == k' && parsesB s n && parsesFieldsB fs ns
+  | _, _ => false
+def parsesListB : List Sel → List Node → Bool
+  | [], [] => true
+  | s :: ms, n :: ns => parsesB s n && parsesListB ms ns
+  | _, _ => false
+end
+
+/-- `Parses n s`: go-ipld-prime's ParseSelector reads the node `n` as the specification `s` -/
+def Parses (n : Node) (s : Sel) : Prop := parsesB s n = true
+
 /-! ## Compiled selectors: only the combinators the validator's own selector uses -/
 
 inductive RSel where
